@@ -20,6 +20,7 @@ import Proofs.Lemmas.WalkTop
 import Proofs.Lemmas.WalkNoPanic
 import Proofs.Lemmas.WalkValid3
 import Proofs.GenWalk
+import Proofs.Lemmas.WalkLower
 
 namespace Xsel.C15
 open Xsel
@@ -74,6 +75,19 @@ theorem any_forest_never_panics (t : Walk.PT) (hv : t.valid Generated.production
 /-- the premise is met by the derivation tree of every expression (`C08.forest_is_derivation`) -/
 example (e : Expr) (w : Walk.WCtx) : Walk.walk Generated.handlers (Walk.derivTop e) w ≠ .error .panic :=
   any_forest_never_panics _ (Walk.derivTop_valid e) w
+
+/-- **denoting_forest_never_panics** — the same conclusion from a different premise: a tree that DENOTES an
+    expression (`L2.lower t = some x`, Xsel/Lower.lean — the condition the driver checks on the forest of the real
+    parser for every generated string) is walked without panic in every context, whether or not each of its nodes
+    is an instance of a production; the run ends in a value or an ordinary error, the evaluator's own. -/
+theorem denoting_forest_never_panics (a : Arena) (env : Env) (start : Nat) (t : Walk.PT) (x : Expr)
+    (h : Walk.L2.lower t = some x) :
+    Walk.run Generated.handlers a env start t ≠ .error .panic := by
+  have e : Walk.run Generated.handlers a env start t = Walk.ofEval (Model.run a env start x) := by
+    rw [Gen.handlers_agree]
+    exact Walk.run_of_sim (Walk.L2.walk_lower t x h _)
+  rw [e]
+  cases Model.run a env start x <;> simp [Walk.ofEval]
 
 /-- a panic IS reachable in the model when a handler is registered for a nonterminal whose production does
     not have the children it indexes (the class of defect the regenerated fact
